@@ -5,6 +5,7 @@ CONSTANTS
   Shapes <- ShapesMC
   Types = {"i16", "f32"}
   RasDims <- RDimsMC
+  ScaleSets <- ScalesT
   MaxObjs = 4
   MaxOps = 100
   Mix = TRUE
